@@ -22,11 +22,24 @@ type seedSet struct {
 	json   [][]byte // JSON documents (fixtures, JSON of every readable ach seed, generated valid files)
 	valid  [][]byte // NACHA text of generated valid files of every SEC code (call-sequence seeds)
 	batchJ [][]byte // JSON of single batches (bodies for POST /files/{id}/batches)
+	genJ   [][]byte // JSON of the generated valid files only (leaf sweep)
+	fails  []*failure // panics / hangs of the implementation while the seeds were built
+	hangs  int
 }
 
-func safe(f func()) {
-	defer func() { _ = recover() }()
-	f()
+// guard runs one seed-building step under recover() and the watchdog: generating or
+// re-reading a VALID file must not panic or hang either.
+func (s *seedSet) guard(step string, f func()) {
+	if s.hangs >= 3 {
+		return // three leaked spinning goroutines already: stop, the failures are reported
+	}
+	o := execFunc(Case{Kind: "seed", Opts: -1, Note: step}, func() bool { f(); return true })
+	if o.fail != nil {
+		s.fails = append(s.fails, o.fail)
+		if o.hung {
+			s.hangs++
+		}
+	}
 }
 
 func loadSeeds() *seedSet {
@@ -76,30 +89,34 @@ func loadSeeds() *seedSet {
 		if f == nil {
 			return
 		}
-		safe(func() {
+		func() {
 			if t, err := gen.Text(f, false); err == nil {
 				s.valid = append(s.valid, []byte(t))
 				s.ach = append(s.ach, []byte(t))
 			}
 			if b, err := json.Marshal(f); err == nil {
 				s.json = append(s.json, b)
+				s.genJ = append(s.genJ, b)
 			}
-		})
+		}()
 	}
 	for _, sec := range gen.AllSECs() {
-		safe(func() { add(gen.FileOfSEC(r, sec, gen.Opts{Addenda: true})) })
+		s.guard("generate valid "+sec+" file", func() { add(gen.FileOfSEC(r.Fork(), sec, gen.Opts{Addenda: true})) })
 	}
-	safe(func() { add(gen.ADVFile(r)) })
+	s.guard("generate valid ADV file", func() { add(gen.ADVFile(r.Fork())) })
 	for i := 0; i < 6; i++ {
-		safe(func() {
-			add(gen.File(r, gen.Opts{IAT: true, Returns: true, NOC: true, Addenda: true, NonASCII: i%2 == 0, MaxBatches: 4}))
+		i := i
+		s.guard(fmt.Sprintf("generate valid mixed file %d", i), func() {
+			add(gen.File(r.Fork(), gen.Opts{IAT: true, Returns: true, NOC: true, Addenda: true, NonASCII: i%2 == 0, MaxBatches: 4}))
 		})
 	}
-	safe(func() { add(gen.File(r, gen.Opts{Offset: true, SECs: []string{"PPD", "CCD"}, ForwardOnly: true})) })
+	s.guard("generate valid file with offset", func() {
+		add(gen.File(r.Fork(), gen.Opts{Offset: true, SECs: []string{"PPD", "CCD"}, ForwardOnly: true}))
+	})
 	// JSON of every fixture the reader accepts at least partially
-	for _, a := range s.ach {
+	for ai, a := range s.ach {
 		a := a
-		safe(func() {
+		s.guard(fmt.Sprintf("read seed %d and render it as JSON", ai), func() {
 			f, _ := ach.NewReader(bytes.NewReader(a)).Read()
 			if len(f.Batches)+len(f.IATBatches) == 0 {
 				return
@@ -271,7 +288,12 @@ type leafRef struct {
 func collectLeaves(v any, key string, set func(any), out *[]leafRef) {
 	switch x := v.(type) {
 	case map[string]any:
+		keys := make([]string, 0, len(x))
 		for k := range x {
+			keys = append(keys, k)
+		}
+		sort.Strings(keys) // map order must not leak into the case stream
+		for _, k := range keys {
 			k := k
 			collectLeaves(x[k], k, func(n any) { x[k] = n }, out)
 		}
@@ -494,8 +516,60 @@ func genAccessor(r *rng.R) Case {
 
 // ---------------------------------------------------------------- deterministic part
 
-func deterministicCases(s *seedSet) []Case {
+// leafSweep replaces every leaf of every generated valid file's JSON, one at a time, by each
+// boundary value of its type (a subset in the quick tier).
+func leafSweep(s *seedSet, thorough bool) []Case {
 	var out []Case
+	strs := []string{"", "A", "1234567", strings.Repeat("Z", 95)}
+	nums := []any{json.Number("0"), json.Number("-1"), json.Number("99999999999999999999")}
+	if thorough {
+		strs = stringBoundary
+		nums = []any{json.Number("0"), json.Number("-1"), json.Number("1"), json.Number("99"), json.Number("2147483648"), json.Number("9223372036854775807"),
+			json.Number("99999999999999999999"), json.Number("-9223372036854775808"), json.Number("1.5"), nil}
+	}
+	for si, seed := range s.genJ {
+		dec := json.NewDecoder(bytes.NewReader(seed))
+		dec.UseNumber()
+		var tree any
+		if dec.Decode(&tree) != nil {
+			continue
+		}
+		var leaves []leafRef
+		collectLeaves(tree, "", func(n any) { tree = n }, &leaves)
+		for li, l := range leaves {
+			var vals []any
+			switch l.old.(type) {
+			case string:
+				for _, v := range strs {
+					vals = append(vals, v)
+				}
+			case json.Number:
+				vals = nums
+			case bool:
+				vals = []any{nil}
+			case []any:
+				vals = []any{[]any{nil}, nil}
+			case map[string]any:
+				vals = []any{nil, map[string]any{}}
+			default:
+				continue
+			}
+			for vi, v := range vals {
+				l.set(v)
+				if b, err := json.Marshal(tree); err == nil {
+					ops := [][]string{{"Validate", "Create"}, {"Write", "Reversal"}, {"FlattenBatches", "SegmentFile:c"}, {"MarshalJSON", "MergeFiles"}}[(si+li+vi)%4]
+					out = append(out, Case{Kind: "json", Data: hx.Enc(string(b)), Opts: -1, Ops: ops, Note: fmt.Sprintf("sweep %s=%.12v", l.key, v)})
+				}
+			}
+			l.set(l.old)
+		}
+	}
+	return out
+}
+
+func deterministicCases(s *seedSet, thorough bool) []Case {
+	var out []Case
+	out = append(out, leafSweep(s, thorough)...)
 	full := (int64(1) << uint(len(optFields))) - 1
 	seqA := []string{"Validate", "Create", "Write", "MarshalJSON", "SegmentFile:c", "FlattenBatches"}
 	seqB := []string{"Reversal", "MergeFiles", "BatchCreate", "SegmentFile:d", "JSONRoundTrip", "Create"}
